@@ -339,7 +339,7 @@ def driver(cinco, prop, seed, n_traces, length):
                         ev = {"op": "EncryptPair", "key": rng.choice(["K1", "K2"]), "m": rng.choice(["aes", "xor", "best"]), "pt": [rng.randint(0, 255) for _ in range(n)],
                               "nested": rng.random() < 0.5}
                     elif r < 0.4 or not w.store:
-                        n = rng.choice([0, 1, 15, 16, 17, 31, 32, 33, 64, rng.randint(0, 120)])
+                        n = rng.choice([0, 1, 15, 16, 17, 31, 32, 33, 64, rng.randint(0, 120)]) if rng.random() > 0.04 else rng.randint(4090, 4200)  # (rarely: longer than any plausible precomputed key stream)
                         ev = {"op": "Encrypt", "key": rng.choice(["K1", "K2"]), "m": rng.choice(["aes", "xor", "best"]), "pt": [rng.randint(0, 255) for _ in range(n)]}
                     elif r < 0.7:
                         ev = {"op": "Decrypt", "key": rng.choice(["K1", "K2"]), "i": rng.randint(1, len(w.store))}
